@@ -98,12 +98,11 @@ func iterateShared(fn subscription.IterateFn, options subscription.IterationOpti
 	}
 	// 查询指定clientID下的所有topic
 	if options.ClientID != "" {
-		for _, v := range index[options.ClientID] {
-			for _, c := range v.shared {
-				if sub, ok := c[options.ClientID]; ok {
-					if !fn(options.ClientID, sub) {
-						return false
-					}
+		for key, v := range index[options.ClientID] {
+			shareName, _ := splitSharedKey(key)
+			if sub, ok := v.shared[shareName][options.ClientID]; ok {
+				if !fn(options.ClientID, sub) {
+					return false
 				}
 			}
 		}
@@ -111,6 +110,19 @@ func iterateShared(fn subscription.IterateFn, options subscription.IterationOpti
 	}
 	// 遍历
 	return trie.preOrderTraverse(fn)
+}
+
+// sharedKey is the key of a shared subscription in sharedIndex: shareName/topicFilter.
+func sharedKey(shareName, topicFilter string) string {
+	return shareName + "/" + topicFilter
+}
+
+func splitSharedKey(key string) (shareName, topicFilter string) {
+	i := strings.IndexByte(key, '/')
+	if i < 0 {
+		return key, ""
+	}
+	return key[:i], key[i+1:]
 }
 
 func iterateNonShared(fn subscription.IterateFn, options subscription.IterationOptions, index map[string]map[string]*topicNode, trie *topicTrie) bool {
@@ -275,6 +287,7 @@ func (db *TrieDB) SubscribeLocked(clientID string, subscriptions ...*gmqtt.Subsc
 		if sub.ShareName != "" {
 			node = db.sharedTrie.subscribe(clientID, sub)
 			index = db.sharedIndex
+			topicName = sharedKey(sub.ShareName, sub.TopicFilter)
 		} else if isSystemTopic(topicName) {
 			node = db.systemTrie.subscribe(clientID, sub)
 			index = db.systemIndex
@@ -325,12 +338,16 @@ func (db *TrieDB) UnsubscribeLocked(clientID string, topics ...string) {
 			index = db.userIndex
 			topicTrie = db.userTrie
 		}
+		key := topic
+		if shareName != "" {
+			key = sharedKey(shareName, topic)
+		}
 		if _, ok := index[clientID]; ok {
-			if _, ok := index[clientID][topic]; ok {
+			if _, ok := index[clientID][key]; ok {
 				db.stats.SubscriptionsCurrent--
 				db.clientStats[clientID].SubscriptionsCurrent--
 			}
-			delete(index[clientID], topic)
+			delete(index[clientID], key)
 		}
 		topicTrie.unsubscribe(clientID, topic, shareName)
 	}
@@ -344,14 +361,26 @@ func (db *TrieDB) Unsubscribe(clientID string, topics ...string) error {
 	return nil
 }
 
-func (db *TrieDB) unsubscribeAll(index map[string]map[string]*topicNode, clientID string) {
+func (db *TrieDB) unsubscribeAll(index map[string]map[string]*topicNode, clientID string, shared bool) {
 	db.stats.SubscriptionsCurrent -= uint64(len(index[clientID]))
 	if db.clientStats[clientID] != nil {
 		db.clientStats[clientID].SubscriptionsCurrent -= uint64(len(index[clientID]))
 	}
 	for topicName, node := range index[clientID] {
-		delete(node.clients, clientID)
-		if len(node.clients) == 0 && len(node.children) == 0 {
+		if shared {
+			// the key of a shared subscription is shareName/topicFilter: leave that group only
+			var shareName string
+			shareName, topicName = splitSharedKey(topicName)
+			if c := node.shared[shareName]; c != nil {
+				delete(c, clientID)
+				if len(c) == 0 {
+					delete(node.shared, shareName)
+				}
+			}
+		} else {
+			delete(node.clients, clientID)
+		}
+		if len(node.clients) == 0 && len(node.shared) == 0 && len(node.children) == 0 {
 			ss := strings.Split(topicName, "/")
 			delete(node.parent.children, ss[len(ss)-1])
 		}
@@ -361,9 +390,9 @@ func (db *TrieDB) unsubscribeAll(index map[string]map[string]*topicNode, clientI
 
 // UnsubscribeAllLocked is the non thread-safe version of UnsubscribeAll
 func (db *TrieDB) UnsubscribeAllLocked(clientID string) {
-	db.unsubscribeAll(db.userIndex, clientID)
-	db.unsubscribeAll(db.systemIndex, clientID)
-	db.unsubscribeAll(db.sharedIndex, clientID)
+	db.unsubscribeAll(db.userIndex, clientID, false)
+	db.unsubscribeAll(db.systemIndex, clientID, false)
+	db.unsubscribeAll(db.sharedIndex, clientID, true)
 }
 
 // UnsubscribeAll delete all subscriptions of the client
